@@ -106,7 +106,7 @@ K_PTRACE = {
     "vk_read_strategy_selection": H("C", "MemReader::read (the first strategy that works is remembered; Unavailable is sticky; every success/failure combination of the strategies)"),
 }
 K_SUSPEND = {
-    "vk_suspend_thread_protocol": H("B", "PtraceDumper::suspend_thread", "at most 3 wait results (SIGSTOP / SIGUSR1 / SIGCHLD / exited / EINTR / error)"),
+    "vk_suspend_thread_protocol": H("B", "PtraceDumper::suspend_thread", "attach succeeds / EPERM / ESRCH; at most 3 wait results (SIGSTOP / SIGUSR1 / SIGCHLD / exited / EINTR / error)"),
     "vk_resume_threads_2": H("B", "PtraceDumper::resume_threads", "2 threads, called twice"),
     "vk_drop_resumes_and_continues": H("C", "Drop for PtraceDumper"),
     "vk_ptrace_detach_esrch_is_ok": H("C", "ptrace_detach (ESRCH)"),
@@ -463,7 +463,7 @@ PLAN["C11"] = {
     "explanation": "suspend_threads records one soft error per unattachable thread and keeps going (bounded); generate_dump keeps succeeding when any "
                    "best-effort writer fails, leaves an unused entry and records exactly one soft error per failed step (complete relative to stubs, thorough)",
     "verus": [{"unit": "dump", "functions": ["dump"], "tags": ["C11"], "tiers": Q}],
-    "kani": [{"tiers": Q, "jobs": 2, "timeout": 900, "harnesses": K_SUSPEND_THREADS},
+    "kani": [{"tiers": Q, "jobs": 2, "timeout": 900, "harnesses": dict(K_SUSPEND_THREADS, **{"vk_suspend_thread_protocol": K_SUSPEND["vk_suspend_thread_protocol"]})},
              {"tiers": T, "jobs": 2, "timeout": 5400, "mem_gb": 24, "harnesses": K_GENERATE}],
     "native": [{"stem": "minidump_writer", "filter": "bprime_soft", "tiers": Q, "tests": {
         "bprime_soft_error_stream_is_wellformed_json": H("B'", "write_soft_errors", "every subset of 6 representative soft errors (64)")}},
